@@ -111,7 +111,7 @@ pub const C08: Check = Check {
     id: "C08",
     level: "exploration",
     rule: "worlds where unrelated CAs hold each other's resource blocks (so their ROAs are equal to / nested in / covering / disjoint \
-           from a rejected CA's prefixes, IPv4 and IPv6), CAs holding the whole address family, and 1-3 publication points made \
+           from a rejected CA's prefixes, IPv4 and IPv6), CAs holding the whole address family (both families, or only IPv4 / only IPv6 next to specific blocks of the other), and 1-3 publication points made \
            unusable (missing/invalid/stale manifest, bad CRL, missing file), for each unsafe-vrps policy. Oracle: set of rejected \
            CAs from the model -> their blocks minus whole-family blocks -> under 'reject' served = expected minus intersecting \
            VRPs, under warn/accept nothing removed. distinct = (policy, #rejected, some VRP overlapped?, slash-zero involved) classes",
@@ -137,7 +137,7 @@ fn run_c08(ctx: &mut Ctx, rep: &mut Report) {
             // a root and one of its children hold 0/0
             let root = w.tals[0].root;
             w.cas[root].slash0 = true;
-            if let Some(c) = w.children(root).first() { w.cas[*c].slash0 = true; }
+            if let Some(c) = w.children(root).first() { w.cas[*c].slash0 = true; w.cas[*c].slash0_families = rng.usize(3) as u8; }
             // Holders of the whole address family publish ROAs whose prefixes cover (are less specific than)
             // other CAs' blocks, or cover several of them: the "covering" side of the intersection test.
             let holders: Vec<usize> = (0..w.cas.len()).filter(|c| w.cas[*c].slash0).collect();
@@ -145,7 +145,9 @@ fn run_c08(ctx: &mut Ctx, rep: &mut Report) {
                 let mut prefixes = Vec::new();
                 for _ in 0..1 + rng.usize(3) {
                     let bb = rng.usize(w.cas.len());
-                    if rng.bool() {
+                    // a covering prefix needs the whole family
+                    let want_v4 = if w.whole_family(h, true) && w.whole_family(h, false) { rng.bool() } else { w.whole_family(h, true) };
+                    if want_v4 {
                         let (bits, _) = block_v4(bb);
                         let l = 8 + rng.usize(8) as u8;      // /8../15, covers block bb (a /16)
                         let m = u128::MAX << (128 - l as u32);
@@ -184,9 +186,8 @@ fn run_c08(ctx: &mut Ctx, rep: &mut Report) {
         let e = expect_fresh(&w, w.now, &pol);
         let o = observe(&snap);
         // Property-specific judgement with precise signatures.
-        let mut rejected_blocks: BTreeSet<usize> = BTreeSet::new();
-        for r in &e.rejected { if !w.cas[*r].slash0 { rejected_blocks.extend(w.blocks(*r)); } }
-        let hits = |v: &Vrp| rejected_blocks.iter().any(|bl| { let (bits, len) = if v.0 { block_v4(*bl) } else { block_v6(*bl) }; overlaps(v.1, v.2, bits, len) });
+        let (rejected_v4, rejected_v6) = rejected_blocks_of(&w, &e.rejected);
+        let hits = |v: &Vrp| (if v.0 { &rejected_v4 } else { &rejected_v6 }).iter().any(|bl| { let (bits, len) = if v.0 { block_v4(*bl) } else { block_v6(*bl) }; overlaps(v.1, v.2, bits, len) });
         if pol.unsafe_vrps == Filter::Reject {
             for v in o.vrps.iter().filter(|v| hits(v)).take(3) {
                 rep.violation("C08/unsafe-vrp-served", format!("VRP {} overlaps the resources of a rejected CA but is served under unsafe-vrps=reject", fmt_vrp(v)), replay.clone());
